@@ -310,6 +310,8 @@ class Run:
             'models_used': sorted(self.models_used),
             'havoc_callees': {c: dict(I.stats.get('havoc', {})) for c, I in self.interps.items() if I.stats.get('havoc')},
             'solver_seconds': {'z3': round(self.solver_s + sum(I.solver_s for I in self.interps.values()), 2), 'cvc5': round(getattr(self, 'solver_cvc5_s', 0.0), 2)},
+            'slowest_queries': [{'name': o['name'], 's': o['s'], 'retried': bool(o.get('retried'))} for o in sorted(self.obl, key=lambda o: -o['s'])[:5]],
+            'query_cap_s': self.timeout_ms / 1000.0,
             'feasibility_queries': sum(I.nqueries for I in self.interps.values()),
             'cvc5_cross_checked': self.cvc5_checked, 'cvc5_disagreements': self.cvc5_disagree,
             'replayed_scenarios': self.replayed, 'differential': self.differential,
